@@ -151,7 +151,38 @@ def fold_preference_rules(ctx, facts, g, te_parse):
                     if r2["rv"] == "binop" and r2["op"] == "Gt" and op_const(r2["b"]) == ("float", 0.0) and s2["lhs"] == {"l": 0, "p": []}:
                         skip_ok = fb and g.dominates(bb, fb[0][0], unwind=False)
     ctx.ob("C05.4", "%s|skip-q-zero" % g.id, "an entry with q <= 0 (or a q that is not a number) is dropped before the codings are compared", bool(skip_ok), where)
-    uses_parser = te_parse in local_reach(facts, g.id) or any(a.get("k") == "const" and a.get("fn") == te_parse for h, bb, t in facts.callers_of(g.id) for a in t["args"])
+    # the token parser is applied to the candidates BEFORE they are compared: in a stage of the pipeline the fold draws from, or in the fold's
+    # own function (choosing the best of all entries and parsing the winner afterwards drops the preference whenever an unsupported coding
+    # ranks first)
+    def calls_parser(fid, seen=()):
+        f_ = facts.fns.get(fid)
+        if f_ is None or fid in seen:
+            return False
+        if f_.call_blocks(lambda t: is_te_parse(t, te_parse)) or any(a.get("k") == "const" and a.get("fn") == te_parse for b_, t_ in f_.calls() for a in t_["args"]):
+            return True
+        return any(calls_parser(c, seen + (fid,)) for c in local_reach(facts, fid) if c != fid and c.startswith(fid))
+    uses_parser = False
+    if len(fb) == 1:
+        recv = g.origin(fb[0][1]["args"][0])
+        stage_fns = [x[1] for x in origin_walk(recv) if x[0] == "agg" and isinstance(x[1], str) and x[1] in facts.fns]
+        stage_fns += [x[3] for x in origin_walk(recv) if x[0] == "const" and len(x) > 3 and isinstance(x[3], str) and x[3] in facts.fns]
+        co_ = g.origin(fb[0][1]["args"][2]) if len(fb[0][1]["args"]) > 2 else ("unknown",)
+        if co_[0] == "agg" and co_[1] in facts.fns:
+            stage_fns.append(co_[1])
+        uses_parser = any(calls_parser(x) for x in stage_fns) or any(x[0] == "const" and len(x) > 3 and x[3] == te_parse for x in origin_walk(recv))
+        if not uses_parser:
+            # the parser handed in as a function parameter (`most_preferred(value, TransferEncoding::from_token)`) and called by a stage
+            # that captures that parameter
+            ks = set()
+            cs_ = list(facts.callers_of(g.id))
+            for h, b_, t_ in cs_:
+                ks_ = {i_ + 1 for i_, a in enumerate(t_["args"]) if a.get("k") == "const" and a.get("fn") == te_parse}
+                ks = ks_ if not ks else (ks & ks_)
+            aggs = [x for x in origin_walk(recv) if x[0] == "agg" and isinstance(x[1], str) and "{closure" in x[1]]
+            if co_[0] == "agg":
+                aggs.append(co_)
+            if cs_ and ks:
+                uses_parser = any(any(y == ("arg", k_) for op_ in x[2] for y in origin_walk(op_)) for x in aggs for k_ in ks)
     ctx.ob("C05.4", "%s|first-supported-wins" % g.id, "only codings the token parser recognises take part in the comparison", uses_parser, where)
 
 
